@@ -141,6 +141,47 @@ def mk_pdu(kind, cfg, p):
     return ctor(), conf, params, snap
 
 
+def mk_pdu_via_setters(kind, cfg, p):
+    """The PDU reaches its parameter values through a HISTORY: constructed with other values for every field that has a
+    documented setter, packed once, then brought to p with those setters. Must be indistinguishable from mk_pdu(kind, cfg, p)."""
+    from spacepackets.cfdp.tlv import EntityIdTlv, CfdpTlv
+    from spacepackets.cfdp.tlv.defs import TlvType
+    q = copy.deepcopy(p)
+    if kind in ("eof", "finished") and p["fault"]:
+        v = p["fault"][0]
+        # the same entity number in another width (or another number)
+        q["fault"] = [([0] + v) if len(v) in (1,) else (v[1:] if len(v) == 2 and v[0] == 0 else [(v[0] + 1) % 256] + v[1:])]
+    if kind == "finished":
+        q["responses"] = p["responses"][:-1] if p["responses"] else [{"action": 5, "status": 0, "n1": [113], "n2": [], "msg": []}]
+    if kind == "metadata":
+        q["srcname"], q["dstname"] = p["srcname"] + [120], ([121] + p["dstname"]) if len(p["dstname"]) < 200 else [121]
+        q["options"] = p["options"][1:] if p["options"] else [{"t": 5, "v": [1]}]
+    if kind == "nak":
+        q["segs"] = p["segs"][:-1] if p["segs"] else [[p["start"], p["end"]]]
+    if kind == "filedata":
+        q["data"] = p["data"] + [85]
+        q["meta"] = [] if p["meta"] else [{"state": 1, "md": [9]}]
+    obj, conf, params, snap = mk_pdu(kind, cfg, q)
+    obj.pack()
+    if kind in ("eof", "finished"):
+        obj.fault_location = EntityIdTlv(bytes(p["fault"][0])) if p["fault"] else None
+    if kind == "finished":
+        obj.file_store_responses = [mk_fsresp(r) for r in p["responses"]]
+    if kind == "metadata":
+        obj.source_file_name = _name(p["srcname"]) if p["srcname"] else None
+        obj.dest_file_name = _name(p["dstname"]) if p["dstname"] else None
+        obj.options = [CfdpTlv(TlvType(o["t"]), bytes(o["v"])) for o in p["options"]] if p["options"] else None
+    if kind == "nak":
+        obj.segment_requests = [(_i(s), _i(e)) for s, e in p["segs"]]
+    if kind == "filedata":
+        from spacepackets.cfdp.pdu.file_data import SegmentMetadata, RecordContinuationState
+        obj.file_data = bytes(p["data"])
+        obj.segment_metadata = (SegmentMetadata(RecordContinuationState(p["meta"][0]["state"]), bytes(p["meta"][0]["md"]))
+                                if p["meta"] else None)
+    # the caller's objects were legitimately written through by the setters: compare from here on
+    return obj, conf, params, _snapshot(conf, params)
+
+
 def kind_of(obj):
     from spacepackets.cfdp import pdu as P
     for k, c in (("eof", P.EofPdu), ("finished", P.FinishedPdu), ("ack", P.AckPdu), ("metadata", P.MetadataPdu),
@@ -376,7 +417,8 @@ def op_ctlv_mismatch(a):
 
 def op_pdu_rt(a):
     def run():
-        obj, conf, params, snap = mk_pdu(a["kind"], a["cfg"], a["p"])
+        mk = mk_pdu_via_setters if a.get("via") == "setter" else mk_pdu
+        obj, conf, params, snap = mk(a["kind"], a["cfg"], a["p"])
         plen = obj.packet_len
         dflen = obj.pdu_data_field_len
         hlen = obj.header_len
